@@ -227,9 +227,9 @@ Definition wf_reg (r : Reg A) : Prop :=
   (1 <= rorder r -> length (rderiv r) = rn r) /\
   (2 <= rorder r -> length (rhess r) = rn r /\ Forall (fun row => length row = rn r) (rhess r)).
 
-Lemma frames_clone_reg c a : frames [c] (clone_reg F r32 c a).
+Lemma frames_conv_reg k c a : frames [c] (conv_reg F r32 k c a).
 Proof.
-  intros s s' E. unfold clone_reg in E.
+  intros s s' E. unfold conv_reg in E.
   eapply only_trans; [apply only_upd with (c := c); inW|].
   eapply frames_set_reg; [|exact E]. inW.
 Qed.
